@@ -435,6 +435,60 @@ def exact_registration_widened_later(col, contract):
                 del contract.disagreements[:]
 
 
+def narrowed_registration_does_not_depend_on_earlier_lookups(col):
+    """a type first registered WITHOUT exact=True and later registered again with exact=True: which of the two registrations serves
+    the subclasses from then on is left open by the statement, but "the choice depends [not] on which lookups happened before" - so a
+    registry on which subclass instances were looked up between the two calls must answer exactly like a twin on which they were not"""
+    for default_types in (True, False):
+        for same_handler in (True, False):
+            for warm in ('child-looked-up', 'child-looked-up-through-every-op', 'child-and-sibling-looked-up'):
+                class Base:
+                    def __init__(self):
+                        self.x = 'attr'
+
+                    def __iter__(self):
+                        return iter(['own-iter'])
+
+                class Child(Base):
+                    pass
+
+                class Sibling(Base):
+                    pass
+
+                class GrandChild(Child):
+                    pass
+                h1 = lambda o, k: 'handler-1'
+                h2 = lambda o, k: 'handler-2'
+                it1 = lambda o: iter(['registered-iter-1'])
+                it2 = lambda o: iter(['registered-iter-2'])
+                answers = {}
+                for twin in ('cold', 'warm'):
+                    g = Glommer(register_default_types=default_types)
+                    g.register(Base, get=h1, iterate=it1)
+                    if twin == 'warm':
+                        call(g.glom, Child(), 'x')
+                        if warm.endswith('every-op'):
+                            call(g.glom, Child(), [T])
+                            call(g.glom, GrandChild(), Path('x'))
+                        if warm.startswith('child-and-sibling'):
+                            call(g.glom, Sibling(), 'x')
+                            call(g.glom, Sibling(), [T])
+                    g.register(Base, get=h1 if same_handler else h2, iterate=it1 if same_handler else it2, exact=True)
+                    for cls in (Child, Sibling, GrandChild, Base):
+                        for op, spec in (('get', 'x'), ('get-path', Path('x')), ('iterate', [T])):
+                            got = call(g.glom, cls(), spec)
+                            col.count('api_lookups')
+                            col.count('narrowed_registration_lookups')
+                            answers.setdefault((cls.__name__, op), {})[twin] = (got.ok, repr(got.value) if got.ok else type(got.exc).__name__)
+                for (cname, op), a in sorted(answers.items()):
+                    col.case(('non-exact-then-exact', default_types, same_handler, warm, cname, op), True)
+                    if a['cold'] != a['warm']:
+                        col.violation('C13/choice-depends-on-earlier-lookups:after-a-narrowing-registration:%s' % op.split('-')[0],
+                                      'Glommer(register_default_types=%s): register(Base, get=h1, iterate=it1); [%s]; register(Base, get=%s, iterate=.., exact=True) - '
+                                      '%s on a %s instance gives %r when the bracketed lookups were made and %r when they were not'
+                                      % (default_types, warm, 'h1' if same_handler else 'h2', op, cname, a['warm'], a['cold']), None)
+
+
 def refused_operations_leave_no_trace(col, contract):
     """"the choice does not depend on which lookups happened before" includes lookups that found NOTHING: after operations that were
     refused for a type (a reduction of a non-iterable, a list spec, an Iter, wildcard walks over such leaves, assign / delete on an
@@ -857,6 +911,7 @@ def run(ctx):
             repeated_registration(col, contract)
             explicit_false_survives_reregistration(col, contract)
             exact_registration_widened_later(col, contract)
+            narrowed_registration_does_not_depend_on_earlier_lookups(col)
             refused_operations_leave_no_trace(col, contract)
             nested_entry_points_use_the_calls_registry(col)
             ephemeral_classes(col, contract)
